@@ -489,6 +489,10 @@ fn single_kind_cases(rng: &mut Rng, kind: &'static str, count: usize, maxlen: i6
         let k = random_kind(rng, kind);
         let mut c = vec![format!("new 1 {}", k.params), "cfg 1".to_string()];
         for _ in 0..rng.range(1, maxlen) {
+            if rng.chance(1, 12) {
+                // a reset in mid-stream: the recurrences must start over
+                c.push("reset 1".into());
+            }
             c.push(format!("f 1 {}", random_input(rng, &k)));
             for g in guts {
                 if rng.chance(1, 3) {
